@@ -265,7 +265,16 @@ def _apply_add_metabolites(eng, st, model, met):
     mo0, mo1 = eng.heap_arr(st1, "_model"), eng.heap_arr(s2, "_model")
     R0, R1 = eng.heap_arr(st1, "_reaction"), eng.heap_arr(s2, "_reaction")
     y, z = qv("ay", Ref), qv("az", Ref)
+    kk, yy = qv("ah"), qv("ahy", Ref)
     lemmas = [
+        # small steps towards `the new tail is exactly [x]`, each obliged and then assumed: they put the ground terms e1[n0], e1[n0 + 1]
+        # in front of the solver (the one-shot form of this lemma took 8 - 70 s and flipped to unknown under load)
+        ("joining-is-x", FA([yy], z3.Implies(AM._joins(E1, yy), yy == x), patterns=[AM.Hh(E1, E1.s0, "_id")[yy]])),
+        ("x-joins", AM._joins(E1, x)),
+        ("tail-elements-are-x", FA([kk], z3.Implies(z3.And(n0 <= kk, kk < n1), e1[kk] == x), patterns=[e1[kk]])),
+        ("tail-holds-x", AM._done(e1, n0, n1, x)),
+        ("tail-nonempty", z3.And(n1 > n0, e1[n0] == x)),
+        ("tail-second", z3.Implies(n1 >= n0 + 2, e1[n0 + 1] == x)),
         ("tail-is-the-metabolite", z3.And(n1 == n0 + 1, e1[n0] == x)),
         ("index", z3.And(z3.Select(dm1, ids[x]), vl1[ids[x]] == n0,
                          FA([k], z3.Implies(z3.Select(dm0, k), z3.And(z3.Select(dm1, k), vl1[k] == vl0[k])), patterns=[z3.Select(dm0, k)]),
